@@ -387,7 +387,9 @@ func (c *XAConn) CloseForce() error {
 
 func (c *XAConn) XaCommit(ctx context.Context, xaXid XAXid) error {
 	err := c.xaResource.Commit(ctx, xaXid.String(), false)
-	c.releaseIfNecessary()
+	if err == nil {
+		c.releaseIfNecessary()
+	}
 	return err
 }
 
@@ -397,6 +399,8 @@ func (c *XAConn) XaRollbackByBranchId(ctx context.Context, xaXid XAXid) error {
 
 func (c *XAConn) XaRollback(ctx context.Context, xaXid XAXid) error {
 	err := c.xaResource.Rollback(ctx, xaXid.String())
-	c.releaseIfNecessary()
+	if err == nil {
+		c.releaseIfNecessary()
+	}
 	return err
 }
